@@ -140,7 +140,7 @@ func TestJacobiSmallScope(t *testing.T) {
 func TestPrimeGeneration(t *testing.T) {
 	const test = "PrimeGeneration"
 	kinds := []string{"prime", "blum", "safe", "pair", "blumpair", "safepair", "random", "mrchecks", "reject"}
-	vlib.Check(t, 64, func(t *rapid.T) {
+	vlib.Check(t, 160, func(t *rapid.T) {
 		kind := rapid.SampledFrom(kinds).Draw(t, "kind")
 		prng := vlib.NewPRNG(rapid.Uint64().Draw(t, "prngseed"), "c17/primes")
 		isPrime := func(p *big.Int) bool { return p.ProbablyPrime(32) }
